@@ -233,7 +233,7 @@ def _interval_name(n):
     return "scalar"
 
 
-def r14_4b(ctx, which):
+def r14_4b(ctx, which, rule="R14.4"):
     """num_too_big is sticky and set before the wrapping add (from the normal form of do_numeric)"""
     T = ctx.tables(which)
     cells = T["charref"].get("do_numeric")
@@ -261,8 +261,8 @@ def r14_4b(ctx, which):
         else:
             ok = not sets_flag
             detail = "non-overflowing digit path leaves num_too_big untouched (sticky)"
-        ctx.ob("R14.4", "sticky-overflow/%s/%s" % (which, "over" if g_over else "in-range"), ok, detail, "%s char_ref do_numeric" % which)
-    ctx.floor("R14.4", "do_numeric-digit-paths/" + which, n, 2)
+        ctx.ob(rule, "sticky-overflow/%s/%s" % (which, "over" if g_over else "in-range"), ok, detail, "%s char_ref do_numeric" % which)
+    ctx.floor(rule, "do_numeric-digit-paths/" + which, n, 2)
 
 
 def semicolon_rule(ctx, rule):
